@@ -155,9 +155,12 @@ def run(r):
     # structural core, independent of how missing values are dropped: the ranks 0..size-1 and the cumulative norm are taken from the very
     # array whose reversed values are drawn
     q = PL + "rankfrequency"
-    s = r.A.summary(q)
+    s = r.A.summary(q).assuming_assertions()      # a failing assert raises; it does not change what is drawn
     step = strip(s.ret)
     okr, found = False, show(step, 100)
+    if not (head(step) == "call" and head(strip(step[1])) == "attr" and strip(step[1])[2] == "step" and len(step[2]) >= 2):
+        rep.require(False, f"{q}: the returned value is not a single ax.step(x, y, ...) call ({show(step, 60)}); cannot decide [C19-RANK]")
+        okr = None
     if head(step) == "call" and head(strip(step[1])) == "attr" and strip(step[1])[2] == "step" and len(step[2]) >= 2:
         xs, ys = strip_all(step[2][0]), strip_all(step[2][1])
         rev = [x for x in walk(xs) if head(x) == "sub" and x[2] == ("slice", NONE, NONE, const(-1))]
@@ -167,8 +170,9 @@ def run(r):
         drawn = {x[1] for x in rev}
         okr = len(drawn) == 1 and sizes == drawn
         found = f"drawn: {[show(d, 50) for d in drawn]}; sizes taken from: {[show(z, 50) for z in sizes]}"
-    rep.ob("C19-RANK", q, okr, "ranks and the normalising count refer to exactly the values that are drawn (missing values excluded from both)", where_of(r.P, s.func, s.func.node),
-           expected="y = scaley * arange(drawn.size) / (drawn.size or 1) for the drawn array", found=found, key="rank domain")
+    if okr is not None:
+      rep.ob("C19-RANK", q, okr, "ranks and the normalising count refer to exactly the values that are drawn (missing values excluded from both)", where_of(r.P, s.func, s.func.node),
+             expected="y = scaley * arange(drawn.size) / (drawn.size or 1) for the drawn array", found=found, key="rank domain")
     compare_function(r, "C19-RGX", U + "seqs_to_regex", SPEC, "regex: per position the residues with count > 0, bracketed iff several, '?' iff some sequence has a gap there, in row order", eq=eq, key="regex")
     compare_function(r, "C19-CONS", U + "seqs_to_consensus", SPEC, "consensus: a most frequent residue per position, positions with more than n//2 gaps skipped", eq=eq, key="consensus")
     compare_function(r, "C19-RANK", PL + "rankfrequency", SPEC, "rankfrequency draws reverse(sort(non-NaN data [/ sum]))*scalex against scaley*arange(size)/norm", eq=eq, key="rank frequency")
